@@ -2,6 +2,8 @@ import Glas.Model.Edits
 import Glas.Model.ScopeSpec
 import Glas.Lemmas.Edits
 import Glas.Lemmas.Alpha
+import Glas.Lemmas.AlphaMod
+import Glas.Props.C05
 /-!
 # C07 — rename to a fresh name preserves what every identifier means
 -/
@@ -276,5 +278,98 @@ example :
         body := .block (.cons (.let_ (.var 1 "a") (.var 10 "a"))
                  (.cons (.expr (.node (.cons (.var 11 "a") (.cons (.var 12 "b") .nil)))) .nil)) }
     bindings (renameFn f 1 "z") = bindings f ∧ refsOf f 1 = [11] ∧ refsOf f 0 = [10] := by decide
+
+/-! ### module-level symbols (functions, constants, constructors, unqualified imports)
+
+The module's value table is the outermost frame of the environment (`modFrame`): `resolve_name` walks
+the scope chain first and falls back to the table.  Renaming an entry of the table is then the same
+theorem: in **every** function of the module, respelling the entry and exactly the occurrences it
+captures leaves the binding of every occurrence unchanged — locals that shadow the old name keep
+shadowing, nothing is captured by the new one. -/
+
+/-- what every occurrence of a function is bound to inside a module with value frame `mf` -/
+def bindingsIn (f : Function) (mf : Frame) : List (Nat × Option Nat) :=
+  specExpr f.body [patsBinders f.params, mf]
+
+def refsIn (f : Function) (mf : Frame) (pid : Nat) : List Nat :=
+  ((bindingsIn f mf).filter (fun p => p.2 == some pid)).map (fun p => p.1)
+
+/-- a function of the module after renaming definition `pid` (a local binder or an entry of the value
+table) and exactly its references in this function -/
+def renameIn (f : Function) (mf : Frame) (pid : Nat) (y : Name) : Function :=
+  { params := renPats pid y f.params, body := renExpr pid (refsIn f mf pid) y f.body }
+
+/-- **alpha-renaming of a module-level symbol with a fresh name** -/
+theorem alpha_fresh_module (f : Function) (mf : Frame) (pid : Nat) (y : Name)
+    (hnd : ((occNames f.body).map (fun p => p.1)).Nodup)
+    (hfreshOcc : ∀ p ∈ occNames f.body, p.2 ≠ y)
+    (hfreshBind : ∀ n ∈ patsNames f.params ++ exprBinderNames f.body, n ≠ y)
+    (hfreshMod : ∀ e ∈ mf, e.1 ≠ y) :
+    bindingsIn (renameIn f mf pid y) (renFrame pid y mf) = bindingsIn f mf := by
+  have hnd' : ((bindingsIn f mf).map (·.1)).Nodup := by
+    unfold bindingsIn; rw [specExpr_fst]; exact hnd
+  have hs : Sel pid (refsIn f mf pid) (specExpr f.body [patsBinders f.params, mf]) :=
+    sel_of_nodup pid (bindingsIn f mf) hnd'
+  have hf : FreshEnv y [patsBinders f.params, mf] :=
+    FreshEnv.cons (freshFrame_pats f.params (fun n h => hfreshBind n (List.mem_append_left _ h)))
+      (FreshEnv.cons hfreshMod (fun fr h => by cases h))
+  have h := ren_expr pid (refsIn f mf pid) y f.body [patsBinders f.params, mf] hf
+    (fun n h => hfreshBind n (List.mem_append_right _ h)) hfreshOcc hs
+  simp only [bindingsIn, renameIn]
+  rw [patsBinders_renPats]
+  exact h
+
+/-- the table after the rename is the table with the entry respelled -/
+theorem renFrame_modFrame (base : Nat) (values : List (Name × ValEntry)) (i : Nat) (y : Name) :
+    renFrame (base + i) y (modFrame base values) =
+      modFrame base (values.map (fun v => if v.2 = some i then (y, v.2) else v)) := by
+  induction values with
+  | nil => rfl
+  | cons v r ih =>
+    obtain ⟨k, w⟩ := v
+    cases w with
+    | none =>
+      simp only [modFrame, List.filterMap_cons, Option.map_none, List.map_cons] at ih ⊢
+      simp only [reduceCtorEq, if_false, Option.map_none]
+      exact ih
+    | some j =>
+      simp only [modFrame, List.filterMap_cons, Option.map_some, List.map_cons, renFrame] at ih ⊢
+      by_cases hj : j = i
+      · subst hj
+        simp only [if_true, Option.map_some, List.cons.injEq, true_and]
+        exact ih
+      · have h1 : ¬ base + j = base + i := by omega
+        have h2 : ¬ some j = some i := by simp [hj]
+        simp only [h1, h2, if_false, Option.map_some, List.cons.injEq, true_and]
+        exact ih
+
+/-- **the implementation's `resolve_name`** (scope arena first, then the module's value table; built-ins
+and unresolved names aside) **is the environment semantics with the table as outermost frame**, at every
+occurrence of every function — so `alpha_fresh_module` speaks about what go-to-definition computes -/
+theorem resolve_name_refines_module (f : Function) (values : List (Name × ValEntry)) (builtins : List Name)
+    (base : Nat) (hnd : ((occNames f.body).map (fun p => p.1)).Nodup) (hkeys : (values.map (·.1)).Nodup) :
+    (occNames f.body).map (fun on => (on.1, encDef base (resolveOcc (buildScopes f) values builtins on.1 on.2))) =
+      bindingsIn f (modFrame base values) := by
+  have hloc := Glas.Props.C05.scopes_refine_spec f hnd
+  unfold bindingsIn
+  have : [patsBinders f.params, modFrame base values] = [patsBinders f.params] ++ [modFrame base values] := rfl
+  rw [this, spec_module_expr, ← hloc]
+  unfold implResolveAll withModule
+  rw [List.zipWith_map_left]
+  rw [List.zipWith_self]
+  refine List.map_congr_left ?_
+  intro on _
+  simp only [resolveOcc, resolveName]
+  cases hrc : resolveChain (buildScopes f).arena (buildScopes f).arena.length
+      (lookupAssoc (buildScopes f).byOcc on.1) on.2 with
+  | some id => simp [encDef]
+  | none =>
+    simp only [findEntry_modFrame base values hkeys]
+    cases hv : findVal values on.2 with
+    | none => cases builtins.contains on.2 <;> simp [encDef]
+    | some w =>
+      cases w with
+      | none => cases builtins.contains on.2 <;> simp [encDef]
+      | some i => simp [encDef]
 
 end Glas.Props.C07
